@@ -124,6 +124,17 @@ func c0910(args []string) error {
 					bad("rect", []float64{r.Min.X, r.Min.Y, r.Max.X, r.Max.Y}, o.rect)
 				}
 			}
+			// the point count of a collection is the sum of its children's counts
+			if c, ok := real.(geojson.Collection); ok {
+				sum := 0
+				for _, ch := range c.Children() {
+					sum += ch.NumPoints()
+				}
+				facts++
+				if real.NumPoints() != sum {
+					bad("npoints", real.NumPoints(), sum)
+				}
+			}
 			// children keep document order (projection of the real object equals the tree)
 			pj, _ := json.Marshal(project(real))
 			want, _ := json.Marshal(project(o.tree.Build(Identity, &indexConfigs[0])))
@@ -286,6 +297,25 @@ func c0910(args []string) error {
 			real := built[o.idx][0]
 			emitLaw(ct, o.tree, c, real)
 			emitLaw(o.tree, ct, real, c)
+		}
+	}
+	// tiny circles (centimetres to a metre) against points a fraction of the radius away, alone and inside collections:
+	// the same laws (contains => intersects and the rectangle covers, intersects => rectangles meet)
+	for _, r := range []float64{0.05, 0.2, 0.27, 0.3, 1, 7} {
+		centre := geometry.Point{X: 1, Y: 1}
+		c := geojson.NewCircle(centre, r, 64)
+		tc := Tree{Kind: "Circle", P: []int{1, 1}, R: int(r * 100), Steps: 64} // description only: radius in centimetres
+		for _, f := range []float64{0.3, 0.9} {
+			for _, dir := range [][2]float64{{1, 0}, {0, 1}, {-0.7, -0.7}} {
+				p := geojson.NewPoint(geometry.Point{X: centre.X + dir[0]*f*r/111195, Y: centre.Y + dir[1]*f*r/111195})
+				tp := Tree{Kind: "Point", P: []int{1, 1}}
+				emitLaw(tc, tp, c, p)
+				emitLaw(tp, tc, p, c)
+				fc := geojson.NewFeatureCollection([]geojson.Object{c})
+				emitLaw(Tree{Kind: "FeatureCollection", Kids: []Tree{tc}}, tp, fc, p)
+				gc := geojson.NewGeometryCollection([]geojson.Object{geojson.NewPoint(geometry.Point{X: 50, Y: 50}), c})
+				emitLaw(Tree{Kind: "GeometryCollection", Kids: []Tree{tc}}, tp, gc, p)
+			}
 		}
 	}
 	selfLaw = true
